@@ -463,6 +463,33 @@ pub fn spec(check: &str, tier: &str) -> Option<CheckSpec> {
             progs.extend(fam::spin_programs(tier).into_iter().filter(|p| !p.text().contains("==77") && !p.name.starts_with("S35")));
             progs.extend(fam::spin_lock_family(tier));
             level.push_str("; SPIN and SPIN+LOCK (yield loops, also next to a mutex)");
+            // exploration controls: a stop_exploring()/explore() region or a skip_branch() around
+            // relaxed loads with several candidates, spurious returns and scheduling decisions
+            {
+                let mut bases = fam::lit(1, 2, 2, 3, false, false);
+                bases.extend(fam::wait_rounds().into_iter().filter(|p| p.name.contains("notify-2")));
+                let step = if tier == "quick" { 9 } else { 2 };
+                let mut n = 0;
+                for b in bases.into_iter().step_by(step) {
+                    for t in 1..b.threads.len() {
+                        let len = b.threads[t].len();
+                        for i in 0..=len {
+                            for j in i..=len {
+                                let q = fam::insert_op(&b, t, j, crate::ir::K::Explore.into());
+                                let mut q = fam::insert_op(&q, t, i, crate::ir::K::StopExploring.into());
+                                q.name = format!("{}+region", q.name);
+                                progs.push(q);
+                                n += 1;
+                            }
+                            let mut q = fam::insert_op(&b, t, i, crate::ir::K::SkipBranch.into());
+                            q.name = format!("{}+skip", q.name);
+                            progs.push(q);
+                            n += 1;
+                        }
+                    }
+                }
+                level.push_str(&format!("; {} LIT / Notify programs with a stop/explore region or a skip_branch at every placement", n));
+            }
             Some(CheckSpec {
                 id: "C14",
                 level: "model_checking",
